@@ -189,14 +189,21 @@ TRewind == /\ IsEvent("rewind")
            /\ LET ok == Rec[l].res = "ok"
                   target == Rec[l].target
                   left == SeqToSet(Rec[l].post.blocks)
+                  \* the listed finding: the wallet settled BELOW the target (no pool retains a checkpoint at or above it, so it
+                  \* falls back to the pruning floor) and drops scanned blocks at or below the target, but the heights between
+                  \* are not queued again (RewindTo leaves them unqueued exactly as the code does: the table is compared, the
+                  \* finding reported, and the rest of the history follows the logged table)
+                  below == IF ok /\ MaxScanned # WQ!NoH /\ target < MaxScanned /\ \E h \in scanned : h <= target /\ h \notin left
+                           THEN { th \in WQ!Hts : th < target /\ left = { h \in scanned : h <= th } } ELSE {}
                   cands == IF ~ok THEN { WQ!NoH }
                            ELSE IF MaxScanned # WQ!NoH /\ target < MaxScanned
-                                THEN { th \in WQ!Hts : th >= target /\ left = { h \in scanned : h <= th } }
+                                THEN { th \in WQ!Hts : th >= target /\ left = { h \in scanned : h <= th } } \cup below
                                 ELSE { WQ!NoH }
               IN  /\ ok => left \subseteq scanned
                   /\ \E th \in cands :
                        /\ scanned' = IF ok THEN left ELSE scanned
                        /\ SetQ(IF ok THEN WQ!RewindTo(Q, target, th) ELSE Q, IF ok THEN WQ!RewindInsertions(target, Q.hi) ELSE << >>, Rec[l])
+                       /\ (th \in below) => PrintT(<< "WQSTAT", "rewind-below", l >>)
                   /\ ends' = IF ok THEN LoggedEnds(Rec[l].post.shards) ELSE ends
                   /\ ok => \A P \in PoolSet : ends'[P] \subseteq ends[P]
                   \* statistics: was anything truncated; do scanned blocks above the target stay in the wallet (they are queued again)
